@@ -1091,6 +1091,55 @@ pub fn c13(ctx: &Ctx) {
             g.3 += acc.3;
         });
     }
+    // bulk frames: tens of thousands of identical extreme pixels in one image (all white at 16 and 12 bit, all NaN, all +inf),
+    // and tens of thousands of small conversions in a row on one thread: totals and counters must not overflow
+    let mut bulk = 0u64;
+    if !sel.child || sel.shard == 0 {
+        let nbulk = if lite { 70_001usize } else { 70_001 };
+        let fills: [(&str, [f32; 3]); 5] = [("white", [1.0; 3]), ("nan", [f32::NAN; 3]), ("inf", [f32::INFINITY; 3]), ("neg-inf", [f32::NEG_INFINITY; 3]), ("huge", [3e38; 3])];
+        let idx0 = cfgs.len() as u64 * 1000;
+        for (k, (name, fill)) in fills.iter().enumerate() {
+            for (depth, npx) in [(16u8, nbulk), (12, if lite { nbulk } else { 1_060_000 }), (8, nbulk)] {
+                sel.announce(idx0 + k as u64 * 8 + depth as u64 % 8, &format!("bulk frame {name} x{npx} depth {depth}"));
+                let r = ev::guarded(|| {
+                    let px = vec![*fill; npx];
+                    let cfg = cfg_full(MC::BT709, TC::BT1886, CP::BT709, depth != 12, depth, (0, 0));
+                    let y: Result<Yuv<u16>, _> = Yuv::try_from((&Rgb::new(px.clone(), npx, 1, TC::BT1886, CP::BT709).unwrap(), cfg));
+                    let y2: Result<Yuv<u16>, _> = Yuv::try_from((LinearRgb::new(px.clone(), npx, 1).unwrap(), cfg));
+                    let x = Xyb::from(LinearRgb::new(px, npx, 1).unwrap());
+                    let y3: Result<Yuv<u16>, _> = Yuv::try_from((x, cfg));
+                    for y in [y, y2, y3].into_iter().flatten() {
+                        let _ = Rgb::try_from(&y);
+                    }
+                });
+                bulk += 4;
+                if let Err(msg) = r {
+                    ev::violation(format!("C13|panic|bulk-frame|{}", ev::panic_site(&msg)), format!("a {npx}-pixel image of {name} pixels at {depth} bit: {msg}"), J::obj().set("kind", "c13-bulk").set("fill", *name).set("pixels", npx).set("depth", depth));
+                }
+            }
+        }
+        // many small conversions in a row on this thread
+        sel.announce(idx0 + 100, "70000 small conversions in a row");
+        let r = ev::guarded(|| {
+            let f8: Frame<u8> = mk_frame(2, 2, (0, 0), 0, |_, x, y| (x * 50 + y * 90 + 20) as u32);
+            for k in 0..70_000u32 {
+                let unspec = cfg_full(if k % 2 == 0 { MC::Unspecified } else { MC::BT709 }, TC::Unspecified, CP::Unspecified, k % 3 == 0, 8, (0, 0));
+                let y = Yuv::new(f8.clone(), unspec).expect("well-formed");
+                if k % 16 == 0 {
+                    let _ = Xyb::try_from(&y);
+                    let l = LinearRgb::new(vec![[0.2, 0.4, 0.6]; 4], 2, 2).unwrap();
+                    let _ = Yuv::<u8>::try_from((l, unspec));
+                    let _ = Rgb::new(vec![[0.5; 3]; 1], 1, 1, TC::Unspecified, CP::Unspecified);
+                }
+            }
+        });
+        bulk += 70_000;
+        if let Err(msg) = r {
+            ev::violation(format!("C13|panic|many-calls|{}", ev::panic_site(&msg)), format!("after tens of thousands of small conversions on one thread: {msg}"), J::obj().set("kind", "c13-many-calls"));
+        }
+    }
+    ev::observe("bulk_frame_and_many_call_conversions", bulk);
+    ev::add_evals(bulk);
     let g = glob.lock().unwrap();
     ev::observe("configs_run", g.1);
     ev::observe("configs_total", cfgs.len());
